@@ -149,6 +149,16 @@ def shared (s : State) : Map Rec × Tid × List (Tid × List Oid) := (s.committe
   repeat' split
   all_goals first | rfl | exact storageStore_shared s k r
 
+theorem pickleAccess_cases (s : State) (i) :
+    pickleAccess s i = (s, some .injected) ∨ pickleAccess s i = access s i := by
+  unfold pickleAccess; split
+  · exact Or.inl rfl
+  · exact Or.inr rfl
+
+@[simp] theorem pickleAccess_shared (s : State) (i) : shared (pickleAccess s i).1 = shared s := by
+  rcases pickleAccess_cases s i with h | h <;> rw [h]
+  exact access_shared s i
+
 @[simp] theorem storeOne_shared (s : State) (i) : shared (storeOne s i).1.1 = shared s := by
   unfold storeOne
   dsimp only
